@@ -537,9 +537,61 @@ func (i *interpreter) initForeignGlobal(g *ssa.Global, cell *value) {
 			panic(unsupported{"initialiser of foreign variable " + g.String()})
 		}
 	}
-	// no store in init: zero value (e.g. plain `var x T`)
+	// no direct store in init. The variable may still be initialised element by element
+	// (var t = [N]T{k: v, ...} compiles to stores through &t[k]); anything else that takes the
+	// variable's address in init is refused rather than silently left zero.
 	if strings.HasSuffix(g.Name(), "$guard") {
 		return
+	}
+	for _, b := range initFn.Blocks {
+		for _, in := range b.Instrs {
+			uses := false
+			for _, op := range in.Operands(nil) {
+				if op != nil && *op == ssa.Value(g) {
+					uses = true
+				}
+			}
+			if !uses {
+				continue
+			}
+			switch v := in.(type) {
+			case *ssa.UnOp:
+				continue // a load of the variable
+			case *ssa.IndexAddr, *ssa.FieldAddr:
+				refs := in.(ssa.Value).Referrers()
+				if refs == nil {
+					continue
+				}
+				for _, r := range *refs {
+					st, ok := r.(*ssa.Store)
+					c, isConst := (ssa.Value)(nil), false
+					if ok {
+						c, isConst = st.Val.(*ssa.Const)
+					}
+					if !ok || !isConst {
+						panic(unsupported{"element-wise initialiser of foreign variable " + g.String() + " with a non-constant element"})
+					}
+					cv := constValue(c.(*ssa.Const))
+					switch a := v.(type) {
+					case *ssa.IndexAddr:
+						k, isC := a.Index.(*ssa.Const)
+						arr, isArr := (*cell).(array)
+						if !isC || !isArr {
+							panic(unsupported{"element-wise initialiser of foreign variable " + g.String()})
+						}
+						arr[int(k.Int64())] = cv
+					case *ssa.FieldAddr:
+						st2, isSt := (*cell).(structure)
+						if !isSt {
+							panic(unsupported{"element-wise initialiser of foreign variable " + g.String()})
+						}
+						st2[a.Field] = cv
+					}
+				}
+			default:
+				panic(unsupported{"initialiser of foreign variable " + g.String() + " (address taken in init)"})
+			}
+		}
 	}
 }
 
